@@ -127,9 +127,8 @@ def run():
             ck.coverage.setdefault("translator_error", []).append(inf["error"])
 
     def cl_names(case):
-        # F18, F32, F31, F33, F33b, C09-N2 are FIXED (68466ba, b5c2cd4, 75c6718, 99a89d3, 6cdd79f, 3807cba): nothing excuses them any more
-        if case.get("kind") == "format-tokens" and any("\\" in n for n in case.get("names", [])) and '"' in case.get("unformatted", ""):
-            return "C09-N1-sqlformat-splits-backslash-identifier"
+        # F18, F32, F31, F33, F33b, C09-N2, C09-N1 are FIXED (68466ba, b5c2cd4, 75c6718, 99a89d3, 6cdd79f, 3807cba, fdf832c):
+        # there is no open finding; nothing is excused
         return None
 
     # ------------------------------------------------------------ names
@@ -216,32 +215,42 @@ def run():
     except RuntimeError as ex:
         ck.coverage["model_eval_error_den"] = str(ex)[-400:]
 
-    # the default of prqlc (Options::format = true, `prqlc compile` without --no-format) runs the SQL text through the
-    # sqlformat crate: the formatted text must have the same tokens (Model/SqlLex.v) as the unformatted one, for every name
-    fdial = ["sqlite", "postgres", "mysql"] if not ck.thorough else ["sqlite", "postgres", "mysql", "mssql", "duckdb", "bigquery"]
-    freqs = [{"src": "from t | select {this.%s, y = 1}" % bt(n), "target": "sql." + d, "format": f} for n in names for d in fdial for f in (False, True)]
+    # REGRESSION GUARD for C09-N1 / C09-N2 (fixed): the default of prqlc (Options::format = true, `prqlc compile` without
+    # --no-format) runs the SQL text through the sqlformat crate, and since fdf832c keeps its output only if it has the same
+    # tokens.  Every name family x format=true: the formatted text must have the same tokens (Model/SqlLex.v) as the unformatted
+    # one -- single names (names with a character outside [a-z0-9_] on all 12 dialects, the others on 3), keywords, paths (below),
+    # and the programs of the end-to-end stream (section 3: the formatted SQL is executed too).
+    def fmt_dialects(n):
+        plain = all(("a" <= ch <= "z") or ("0" <= ch <= "9") or ch == "_" for ch in n)
+        return ["sqlite", "postgres", "mysql"] if plain and not ck.thorough else DIALECTS
+    fcases = [(n, d) for n in names for d in fmt_dialects(n)]
+    freqs = [{"src": "from t | select {this.%s, y = 1}" % bt(n), "target": "sql." + d, "format": f} for n, d in fcases for f in (False, True)]
     fans = harness("compile", freqs)
-    try:
-        pairs = []
-        k = 0
-        for n in names:
-            for d in fdial:
-                a0, a1 = fans[k], fans[k + 1]; k += 2
-                if "ok" in a0 and "ok" in a1:
-                    pairs.append((n, d, a0["ok"], a1["ok"]))
-                else:
-                    ck.violation("select of %r with / without formatting does not compile for %s" % (n, d), {"kind": "format-tokens", "name": n, "dialect": d, "answers": [a0, a1]})
-        B = 40
-        HL = "From Coq Require Import List NArith.\nFrom PV Require Import Lib.ListX Model.SqlLex.\nImport ListNotations.\nLocal Open Scope N_scope.\n"   # no Gen file needed
-        fv = [x for v in coq_eval(HL, ["[" + "; ".join("(map tok_view (sql_lex std_sql %s), map tok_view (sql_lex std_sql %s))" % (coq_codes(u), coq_codes(f)) for _, _, u, f in pairs[i:i + B]) + "]"
+    HL = "From Coq Require Import List NArith.\nFrom PV Require Import Lib.ListX Model.SqlLex.\nImport ListNotations.\nLocal Open Scope N_scope.\n"   # no Gen file needed
+
+    def same_tokens_stream(stream, pairs, what):
+        """pairs: (key, dialect, unformatted, formatted)"""
+        try:
+            B = 40
+            fv = [x for v in coq_eval(HL, ["[" + "; ".join("(map tok_view (sql_lex std_sql %s), map tok_view (sql_lex std_sql %s))" % (coq_codes(u), coq_codes(f)) for _, _, u, f in pairs[i:i + B]) + "]"
                                            for i in range(0, len(pairs), B)]) for x in v]
-        for (n, d, u, f), (tu, tf) in zip(pairs, fv):
-            ck.count("format-tokens", d + "|" + n, nontrivial=("\\" in n or '"' in n))
-            if tu != tf:
-                ck.disagreement("formatting changes the tokens of the SQL for the name %r on %s: %r -> %r" % (n, d, u, f),
-                                {"kind": "format-tokens", "names": [n], "dialect": d, "unformatted": u, "formatted": f}, cl_names)
-    except RuntimeError as ex:
-        ck.coverage["model_eval_error_format"] = str(ex)[-400:]
+            for (key, d, u, f), (tu, tf) in zip(pairs, fv):
+                ck.count(stream, d + "|" + str(key), nontrivial=(u.strip() != f.strip()))
+                ck.stat(stream, "formatted" if u.strip() != f.strip() else "kept unformatted (tokens would change)")
+                if tu != tf:
+                    ck.disagreement("formatting changes the tokens of the SQL for the %s %r on %s: %r -> %r" % (what, key, d, u, f),
+                                    {"kind": stream, "names": key if isinstance(key, list) else [key], "dialect": d, "unformatted": u, "formatted": f}, cl_names)
+        except RuntimeError as ex:
+            ck.coverage["model_eval_error_" + stream] = str(ex)[-400:]
+
+    pairs = []
+    for k, (n, d) in enumerate(fcases):
+        a0, a1 = fans[2 * k], fans[2 * k + 1]
+        if "ok" in a0 and "ok" in a1:
+            pairs.append((n, d, a0["ok"], a1["ok"]))
+        else:
+            ck.violation("select of %r with / without formatting does not compile for %s" % (n, d), {"kind": "format-tokens", "name": n, "dialect": d, "answers": [a0, a1]})
+    same_tokens_stream("format-tokens", pairs, "name")
 
     # multi-part names (translate_ident): model emit_path vs prqlc for `from P1.P2[.P3] | select {this.C}`, all dialects;
     # the reading-side model must read prqlc's own text back as exactly the parts
@@ -251,6 +260,9 @@ def run():
     pdial = DIALECTS if ck.thorough else ["sqlite", "postgres", "mysql", "bigquery", "snowflake", "redshift", "mssql"]
     preqs = [{"src": "from %s | select {this.`c`}" % ".".join(bt(x) for x in pt), "target": "sql." + d} for pt in paths for d in pdial]
     pans = harness("compile", preqs)
+    fpaths = [(pt, d) for pt in paths for d in ("sqlite", "postgres", "mysql")]
+    fpans = harness("compile", [{"src": "from %s | select {this.`c`}" % ".".join(bt(x) for x in pt), "target": "sql." + d, "format": f} for pt, d in fpaths for f in (False, True)])
+    same_tokens_stream("format-tokens-path", [(pt, d, fpans[2 * k]["ok"], fpans[2 * k + 1]["ok"]) for k, (pt, d) in enumerate(fpaths) if "ok" in fpans[2 * k] and "ok" in fpans[2 * k + 1]], "path")
     try:
         B = 60
         HP = HEADER + "Definition emp (d : str) (p : list str) := emit_path_row ident_start ident_rest common_keywords dialect_keywords ident_dialects d p.\n"
@@ -585,6 +597,25 @@ def run():
             ck.disagreement("names %s: the query returns %s, the named objects hold %s" % (t["names"], got[:3], t["expected"][:3]), case, cl_names)
         elif len(ck.coverage["samples"]) < 10 and i % 397 == 0:
             ck.sample({"prql": t["src"], "sql": a["ok"], "rows": got[:2]})
+    # ------------------------------------------------------------ 3b. the same programs with formatting on (the default)
+    # every program whose names are not plain [a-z0-9_], every directed generated-name program and every 4th of the rest:
+    # the formatted SQL must run and return what the unformatted SQL returns (columns and rows)
+    def plain_name(n):
+        return all(("a" <= ch <= "z") or ("0" <= ch <= "9") or ch == "_" for ch in n)
+    fidx = [i for i, t_ in enumerate(tests) if "ok" in comp[i] and "rows" in ex_ans.get(i, {}) and
+            (t_["position"] == "generated-like" or not all(plain_name(n) for n in t_["names"]) or i % 4 == 0)]
+    fcomp = harness("compile", [{"src": tests[i]["src"], "target": "sql.sqlite", "format": True} for i in fidx])
+    fex_i = [k for k, a in enumerate(fcomp) if "ok" in a]
+    fex = dict(zip(fex_i, harness("exec", [{"setup": tests[fidx[k]]["setup"], "sql": fcomp[k]["ok"]} for k in fex_i])))
+    for k, i in enumerate(fidx):
+        ck.count("e2e-formatted", tests[i]["src"], nontrivial=("ok" in fcomp[k] and fcomp[k]["ok"].strip() != comp[i]["ok"].strip()))
+        case = {"kind": "e2e-formatted", "src": tests[i]["src"], "names": tests[i]["names"], "cols": tests[i]["cols"], "sql": comp[i]["ok"], "formatted": fcomp[k].get("ok")}
+        r0, r1 = ex_ans[i], fex.get(k)
+        if r1 is None or "rows" not in r1:
+            ck.disagreement("with formatting on the program with names %s does not compile / run: %s" % (tests[i]["names"], json.dumps(r1 if r1 is not None else fcomp[k])[:200]), case, cl_names)
+        elif r1.get("cols") != r0.get("cols") or sorted(map(tuple, r1["rows"])) != sorted(map(tuple, r0["rows"])):
+            ck.disagreement("with formatting on the program with names %s returns %s %s, without %s %s" % (tests[i]["names"], r1.get("cols"), r1["rows"][:2], r0.get("cols"), r0["rows"][:2]), case, cl_names)
+
     # ------------------------------------------------------------ 4. Model/NameGen.v vs every real call of the modelled sites
     # Verification hooks of /repo, read through the harness command `log`:
     #   verif:namegen {site, old, used, new, gen_before, gen_after}   anchor_split / assign_names / relvar steps
